@@ -736,6 +736,11 @@ func (c *SpecCtx) call(e *SCall) Val {
 			return Val{S: Ite("("+op+" "+a.S+" "+b.S+")", b.S, a.S), T: a.T, Bltn: a.Bltn}
 		}
 		return Val{S: Ite("("+op+" "+a.S+" "+b.S+")", a.S, b.S), T: a.T, Bltn: a.Bltn}
+	case "pow10":
+		n := arg(0)
+		fs := x.te.FloatSort()
+		x.S.DeclareFun("pow10", []string{"Int"}, fs)
+		return specVal("(pow10 "+n.S+")", fs)
 	case "errors_is":
 		a, b := arg(0), arg(1)
 		x.S.DeclareFun("errors_is", []string{"Int", "Int"}, "Bool")
